@@ -1,5 +1,5 @@
 (* Completeness of the MinGenSet rows (C15): every generating multiset of size k is carried by a satisfying
-   assignment of encode_mgs I k (no partition constraints).  Steps: genset is permutation invariant; sort g;
+   assignment of encode_mgs I k (partition constraints included).  Steps: genset is permutation invariant; sort g;
    explicit assignment (Gen = g, X = multiplicities, Pi = X * Gen, Bit/Comp = binary digits of X and digit * Gen). *)
 From Coq Require Import List NArith ZArith QArith Lqa Bool Lia Permutation Sorting.Sorted.
 Import ListNotations.
@@ -129,11 +129,35 @@ Proof. intros [z1 H1] [z2 H2]. exists (z1 * z2)%Z. rewrite H1, H2, inject_Z_mult
 Lemma list_max_ge_in d l x : In x l -> x <= list_max d l.
 Proof. intros H. apply (proj2 (list_max_ge l d)). exact H. Qed.
 
+Lemma sumq_indicator_zero p l : ~ In p l -> sumq (fun n => if (p =? n)%nat then 1 else 0) l == 0.
+Proof.
+  induction l as [|x l IH]; intros H; cbn [sumq]; [reflexivity|].
+  destruct (p =? x)%nat eqn:E; [apply Nat.eqb_eq in E; exfalso; apply H; left; symmetry; exact E|].
+  rewrite IH by (intros C; apply H; right; exact C). ring.
+Qed.
+
+Lemma sumq_indicator p : forall t, (p < t)%nat -> sumq (fun n => if (p =? n)%nat then 1 else 0) (seq 0 t) == 1.
+Proof.
+  intros t Hp. replace t with (p + (1 + (t - p - 1)))%nat by lia. rewrite !seq_app, !sumq_app. cbn [seq sumq Nat.add].
+  rewrite Nat.eqb_refl, !sumq_indicator_zero; [ring| |]; rewrite in_seq; lia.
+Qed.
+
+Lemma sumq_seq_part : forall (ps : list nat) (g : list Q) j, length ps = length g ->
+  sumq (fun n => (if (nth n ps 0%nat =? j)%nat then 1 else 0) * nth n g 0) (seq 0 (length g)) == part_sum ps g j.
+Proof.
+  induction ps as [|p ps IH]; intros [|v g] j H; try discriminate; cbn [length seq sumq part_sum nth]; [reflexivity|].
+  rewrite <- seq_shift, sumq_map. cbn [nth]. rewrite IH by (cbn in H; lia). destruct (p =? j)%nat; ring.
+Qed.
+
+Lemma len_le_fold_max (cs : list (list Q)) cons : In cons cs -> (length cons <= fold_right Nat.max 0%nat (map (@length Q) cs))%nat.
+Proof. induction cs as [|c l IH]; intros H; [destruct H|]. cbn [map fold_right]. destruct H as [->|H]; [lia|specialize (IH H); lia]. Qed.
+
 (* ---------------------------------------------------------------- the assignment *)
 Section Complete.
   Variable I : mgs_inst.
   Variable g : list Q.
   Variable xss : list (list Z).
+  Variable pss : list (list nat).          (* per partition constraint c: the part every element is put into *)
   Let k := length g.
   Let nb := num_bits (prod_ub I).
   Let total := mg_total I.
@@ -143,12 +167,14 @@ Section Complete.
   Definition gi (i : N) : Q := nth (N.to_nat i) g 0.
   Definition xij (i j : N) : Z := nth (N.to_nat i) (nth (N.to_nat j) xss []) 0%Z.
   Definition bitv (i j b : N) : Q := nth (N.to_nat b) (bits nb (xij i j)) 0.
+  Definition yv (i j c : N) : Q := if (nth (N.to_nat i) (nth (N.to_nat c) pss []) 0 =? N.to_nat j)%nat then 1 else 0.
 
   Definition mgs_assign (v : var) : Q :=
     match vidx v with
     | [i] => if (vfam v =? fGen)%N then gi i else 0
     | [i; j] => if (vfam v =? fX)%N then inject_Z (xij i j)
                 else if (vfam v =? fPi)%N then inject_Z (xij i j) * gi i else 0
+    | [i; j; c] => if (vfam v =? fY)%N then yv i j c else if (vfam v =? fPiY)%N then yv i j c * gi i else 0
     | [p; i; j; b] => if (vfam v =? fBit)%N then bitv i j b
                       else if (vfam v =? fComp)%N then bitv i j b * gi i else 0
     | _ => 0
@@ -159,8 +185,11 @@ Section Complete.
   Lemma asg_pi i j : mgs_assign (Pij i j) = inject_Z (xij i j) * gi i. Proof. reflexivity. Qed.
   Lemma asg_bit i j b : mgs_assign (Bit (Pij i j) b) = bitv i j b. Proof. reflexivity. Qed.
   Lemma asg_comp i j b : mgs_assign (Comp (Pij i j) b) = bitv i j b * gi i. Proof. reflexivity. Qed.
+  Lemma asg_y i j c : mgs_assign (Yv i j c) = yv i j c. Proof. reflexivity. Qed.
+  Lemma asg_piy i j c : mgs_assign (PiY i j c) = yv i j c * gi i. Proof. reflexivity. Qed.
 
-  Hypothesis Hparts : mg_parts I = None.
+  Hypothesis Hp : Forall2 (fun cons ps => length ps = k /\ Forall (fun p => (p < length cons)%nat) ps /\
+                                       forall j v, nth_error cons j = Some v -> part_sum ps g j == v) (parts_of I) pss.
   Hypothesis Hmult : (1 <= mult)%nat.
   Hypothesis Hpos : Forall (fun v => 0 <= v) g.
   Hypothesis Hsum : sumql g == total.
@@ -201,7 +230,7 @@ Section Complete.
     intros Hi Hj. destruct (xs_of j Hj) as (Hl & Hf & He). cbn zeta in *. rewrite He.
     apply in_layers in Hi. destruct Hi as (n & Hn & ->). unfold xij, gi. rewrite Nnat.Nat2N.id.
     set (xs := nth (N.to_nat j) xss []) in *. clearbody xs. clear He Hj.
-    revert xs n Hl Hf Hn. unfold k. clear Hx Hsorted Hint Hsum. induction g as [|v g' IH]; intros xs n Hl Hf Hn; [cbn in Hn; lia|].
+    revert xs n Hl Hf Hn. unfold k. clear Hx Hsorted Hint Hsum Hp. induction g as [|v g' IH]; intros xs n Hl Hf Hn; [cbn in Hn; lia|].
     destruct xs as [|x xs]; [discriminate|]. inversion Hf as [|? ? Hx0 Hf']; subst. inversion Hpos as [|? ? Hv Hpos']; subst.
     assert (Hrest : 0 <= dotz xs g').
     { clear - Hf' Hpos'. revert xs Hf'. induction Hpos' as [|w l Hw _ IHl]; intros xs Hf'; destruct xs as [|y ys]; cbn [dotz]; try lra.
@@ -247,6 +276,30 @@ Section Complete.
     apply in_layers in Hj. destruct Hj as (n & Hn & ->). rewrite Nnat.Nat2N.id. exact Hn.
   Qed.
 
+  Lemma yv_bin i j c : bin (yv i j c).
+  Proof. unfold yv. destruct (_ =? _)%nat; [right|left]; reflexivity. Qed.
+
+  Lemma parts_nth nc cons : nth_error (parts_of I) nc = Some cons ->
+    let ps := nth nc pss [] in
+    length ps = k /\ Forall (fun p => (p < length cons)%nat) ps /\ forall j v, nth_error cons j = Some v -> part_sum ps g j == v.
+  Proof.
+    intros H. assert (Hn : (nc < length (parts_of I))%nat) by (apply nth_error_Some; congruence).
+    pose proof (Forall2_nth _ _ _ [] [] Hp nc Hn) as HH. cbn beta in HH. rewrite (nth_error_nth _ _ [] H) in HH. exact HH.
+  Qed.
+
+  Lemma len_le_parts_t cons : In cons (parts_of I) -> (length cons <= parts_t I)%nat.
+  Proof. apply len_le_fold_max. Qed.
+
+  Lemma part_index_lt_t i c : In i (layers k) -> In c (idxs (parts_of I)) ->
+    (nth (N.to_nat i) (nth (N.to_nat c) pss []) 0 < parts_t I)%nat.
+  Proof.
+    intros Hi Hc. apply in_layers in Hi. destruct Hi as (n & Hn & ->). apply in_layers in Hc. destruct Hc as (nc & Hnc & ->).
+    rewrite !Nnat.Nat2N.id. destruct (nth_error (parts_of I) nc) as [cons|] eqn:E; [|apply nth_error_None in E; lia].
+    destruct (parts_nth nc cons E) as (Hl & Hf & _). cbn zeta in *.
+    assert (In (nth n (nth nc pss []) 0%nat) (nth nc pss [])) by (apply nth_In; lia).
+    rewrite Forall_forall in Hf. specialize (Hf _ H). pose proof (len_le_parts_t cons (nth_error_In _ _ E)). lia.
+  Qed.
+
   Lemma cols_ok : Forall (sat_col mgs_assign) (mgs_cols (prod_ub I) (pi_ub I) I k).
   Proof.
     unfold mgs_cols. rewrite !Forall_app. split; [|split; [|split; [|split]]].
@@ -265,7 +318,12 @@ Section Complete.
         * pose proof (pi_le_number i j Hi Hj). pose proof (number_le_pi_ub j Hj Hm). lra.
       + intros Hi'. apply is_int_mul; [apply is_int_inject|apply gi_int; exact Hi'].
     - destruct (mult1 I); [constructor|]. apply Forall_flat_map. intros j Hj. apply Forall_flat_map. intros i Hi. apply (prod_ok i j Hi Hj).
-    - unfold part_cols, parts_of. rewrite Hparts. constructor.
+    - destruct (parts_of I) eqn:EP; [unfold part_cols; rewrite EP; constructor|].
+      rewrite (part_cols_unfold I k) by (rewrite EP; discriminate). apply Forall_app. split; apply Forall_map_iff; intros [[i j] c] Hin; cbn [fst snd].
+      + apply col_of_bin. rewrite asg_y. apply yv_bin.
+      + unfold sat_col. cbn [cvar clb cub cint qcol]. rewrite asg_piy. destruct (gi_range i) as [G0 G1]. fold total.
+        split; [destruct (yv_bin i j c) as [E|E]; rewrite E; lra|]. split; [destruct (yv_bin i j c) as [E|E]; rewrite E; lra|].
+        intros Hi'. apply is_int_mul; [|apply gi_int; exact Hi']. unfold yv. destruct (_ =? _)%nat; [exists 1%Z|exists 0%Z]; reflexivity.
   Qed.
 
   Lemma rows_ok : Forall (sat_row mgs_assign) (mgs_rows (prod_ub I) I k).
@@ -295,7 +353,27 @@ Section Complete.
       apply in_layers in Hi. destruct Hi as (n & Hn & ->). unfold gi.
       replace (N.to_nat (N.of_nat n + 1)) with (n + 1)%nat by lia. rewrite Nnat.Nat2N.id.
       pose proof (sorted_adjacent g Hsorted n ltac:(fold k; lia)). lra.
-    - unfold part_rows, parts_of. rewrite Hparts. constructor.
+    - destruct (parts_of I) eqn:EP; [unfold part_rows; rewrite EP; constructor|].
+      rewrite (part_rows_unfold I k) by (rewrite EP; discriminate). rewrite <- EP in *. rewrite !Forall_app. split; [|split].
+      + apply Forall_flat_map. intros [[i j] c] Hin. cbn beta iota.
+        apply (mcc_rows_exact mgs_assign (Yv i j c) (Gen i) (PiY i j c) 0 (mg_total I)).
+        * rewrite asg_y. apply yv_bin.
+        * rewrite asg_gen. apply gi_range.
+        * rewrite asg_piy, asg_y, asg_gen. reflexivity.
+      + apply Forall_flat_map. intros i Hi. apply Forall_map_iff. intros c Hc. rewrite sat_row_eq, eval_ones_sumq.
+        transitivity (sumq (fun j => (fun n => if (nth (N.to_nat i) (nth (N.to_nat c) pss []) 0 =? n)%nat then 1 else 0) (N.to_nat j)) (layers (parts_t I)));
+          [apply sumq_ext; intros j _; rewrite asg_y; reflexivity|].
+        rewrite (sumq_layers (fun n => if (nth (N.to_nat i) (nth (N.to_nat c) pss []) 0 =? n)%nat then 1 else 0) (parts_t I)).
+        apply sumq_indicator. apply (part_index_lt_t i c Hi Hc).
+      + apply Forall_flat_map. intros [c cons] Hc. cbn [fst snd]. apply Forall_map_iff. intros [j v] Hjv. cbn [fst snd].
+        rewrite sat_row_eq, eval_ones_sumq.
+        destruct (zipn_in_nth _ _ _ _ Hc) as (nc & Hnc & -> & Hcons). rewrite Nat.sub_0_r in Hcons.
+        destruct (zipn_in_nth _ _ _ _ Hjv) as (nj & Hnj & -> & Hv). rewrite Nat.sub_0_r in Hv.
+        destruct (parts_nth nc cons Hcons) as (Hl & _ & Hs).
+        transitivity (sumq (fun i => (fun n => (if (nth n (nth nc pss []) 0 =? nj)%nat then 1 else 0) * nth n g 0) (N.to_nat i)) (layers k)).
+        { apply sumq_ext. intros i _. rewrite asg_piy. unfold yv, gi. rewrite !Nnat.Nat2N.id. reflexivity. }
+        rewrite (sumq_layers (fun n => (if (nth n (nth nc pss []) 0 =? nj)%nat then 1 else 0) * nth n g 0) k).
+        unfold k. rewrite (sumq_seq_part _ _ nj Hl). apply Hs. exact Hv.
   Qed.
 
   Theorem mgs_assign_sat : sat mgs_assign (encode_mgs I k).
@@ -310,34 +388,63 @@ Proof.
   exists (b :: bs). constructor; assumption.
 Qed.
 
-(* an integral instance needs an integral multiset *)
-Definition genset_for (I : mgs_inst) (g : list Q) : Prop :=
-  genset (mg_mult I) (mg_numbers I) (mg_total I) g /\ (mg_int I = true -> Forall is_int g).
+(* ---- partition constraints: every element in exactly one (existing) part of the constraint, part sums as given ---- *)
+Definition part_ok_strict (g : list Q) (cons : list Q) : Prop :=
+  exists ps, length ps = length g /\ Forall (fun p => (p < length cons)%nat) ps /\
+             forall j v, nth_error cons j = Some v -> part_sum ps g j == v.
 
-(* every generating multiset of size k is admitted by the rows of _create_solver(k) (no partition constraints).
-   Side conditions: max_multiplicity >= 1 and, for weight_type = int, integral elements; nothing about the numbers. *)
-Theorem mgs_enc_complete (I : mgs_inst) (k : nat) (g : list Q) :
-  mg_parts I = None -> (1 <= mg_mult I)%nat -> length g = k -> genset_for I g ->
-  exists a, sat a (encode_mgs I k).
+Definition ppair_sum (j : nat) (l : list (nat * Q)) : Q := sumq (fun p => if (fst p =? j)%nat then snd p else 0) l.
+Lemma part_sum_combine j : forall ps g, length ps = length g -> part_sum ps g j == ppair_sum j (combine ps g).
 Proof.
-  intros Hp Hm Hl [Hg Hi]. pose proof (qsort_perm g) as HP.
+  induction ps as [|p ps IH]; intros [|v g] H; try discriminate; cbn [part_sum combine]; [reflexivity|].
+  unfold ppair_sum in *. cbn [sumq fst snd]. rewrite IH by (cbn in H; lia). reflexivity.
+Qed.
+Lemma part_sum_pairs j l : part_sum (map fst l) (map snd l) j == ppair_sum j l.
+Proof. induction l as [|[p v] l IH]; cbn [map part_sum fst snd]; [reflexivity|]. unfold ppair_sum in *. cbn [sumq fst snd]. rewrite IH. reflexivity. Qed.
+
+Lemma part_ok_strict_perm g g' cons : Permutation g g' -> part_ok_strict g cons -> part_ok_strict g' cons.
+Proof.
+  intros HP (ps & Hl & Hf & Hs).
+  assert (HP' : Permutation g' (map snd (combine ps g))) by (rewrite (map_snd_combine _ _ Hl); symmetry; exact HP).
+  destruct (Permutation_map_inv _ _ HP') as (l & Hg' & Hl').
+  exists (map fst l). split; [rewrite Hg', !map_length; reflexivity|]. split.
+  - apply Forall_forall. intros p Hin. apply in_map_iff in Hin. destruct Hin as ([p' v] & <- & Hin). cbn [fst].
+    assert (Hin' : In (p', v) (combine ps g)) by (eapply Permutation_in; [symmetry; exact Hl'|exact Hin]).
+    apply in_combine_l in Hin'. rewrite Forall_forall in Hf. apply Hf. exact Hin'.
+  - intros j v Hv. rewrite Hg', part_sum_pairs, <- (Hs j v Hv), (part_sum_combine j _ _ Hl). unfold ppair_sum. symmetry. apply sumq_perm. exact Hl'.
+Qed.
+
+(* what MinGenSet looks for: a generating multiset, integral when weight_type = int, meeting every partition constraint *)
+Definition genset_for (I : mgs_inst) (g : list Q) : Prop :=
+  genset (mg_mult I) (mg_numbers I) (mg_total I) g /\ (mg_int I = true -> Forall is_int g) /\
+  Forall (part_ok_strict g) (parts_of I).
+
+(* COMPLETENESS: every such multiset of size k (in any order) is admitted by the rows of _create_solver(k).
+   Side conditions: max_multiplicity >= 1 only; nothing about the numbers or the total. *)
+Theorem mgs_enc_complete (I : mgs_inst) (k : nat) (g : list Q) :
+  (1 <= mg_mult I)%nat -> length g = k -> genset_for I g -> exists a, sat a (encode_mgs I k).
+Proof.
+  intros Hm Hl (Hg & Hi & Hparts). pose proof (qsort_perm g) as HP.
   apply (genset_perm _ _ _ _ _ HP) in Hg. destruct Hg as (Hpos & Hsum & Hgen).
   destruct (Forall2_choice (fun a xs => length xs = length (qsort g) /\ Forall (fun x => (0 <= x <= Z.of_nat (mg_mult I))%Z) xs /\ a == dotz xs (qsort g))
               (mg_numbers I)) as (xss & Hx).
   { intros a Ha. destruct (Hgen a Ha) as (xs & H1 & H2 & H3). exists xs. tauto. }
-  exists (mgs_assign I (qsort g) xss). rewrite <- Hl, (Permutation_length HP).
+  destruct (Forall2_choice (fun cons ps => length ps = length (qsort g) /\ Forall (fun p => (p < length cons)%nat) ps /\
+                                             forall j v, nth_error cons j = Some v -> part_sum ps (qsort g) j == v) (parts_of I)) as (pss & Hps).
+  { intros cons Hc. rewrite Forall_forall in Hparts. exact (part_ok_strict_perm _ _ _ HP (Hparts cons Hc)). }
+  exists (mgs_assign I (qsort g) xss pss). rewrite <- Hl, (Permutation_length HP).
   apply mgs_assign_sat; try assumption; [apply qsort_sorted|].
   intros Hint. apply Forall_forall. intros v Hv. specialize (Hi Hint). rewrite Forall_forall in Hi. apply Hi.
   eapply Permutation_in; [symmetry; exact HP|exact Hv].
 Qed.
 
-(* the model for k is satisfiable exactly when a generating multiset of size k exists *)
+(* without partition constraints: the model for k is satisfiable exactly when a generating multiset of size k exists *)
 Theorem mgs_feasible_iff (I : mgs_inst) (k : nat) : mg_parts I = None -> (1 <= mg_mult I)%nat ->
   ((exists a, sat a (encode_mgs I k)) <-> exists g, length g = k /\ genset_for I g).
 Proof.
   intros Hp Hm. split.
   - intros (a & Hs). destruct (mgs_sound_multiset I k a Hm Hs) as (Hl & Hg & Hi). cbn zeta in *.
-    eexists. split; [exact Hl|]. split; assumption.
+    eexists. split; [exact Hl|]. split; [exact Hg|]. split; [exact Hi|]. unfold parts_of. rewrite Hp. constructor.
   - intros (g & Hl & Hg). eapply mgs_enc_complete; eassumption.
 Qed.
 
@@ -384,15 +491,50 @@ Section Minimum.
   Qed.
 End Minimum.
 
+(* with partition constraints: the reported size carries a generating multiset (soundness) and no smaller size from the
+   lower bound on has a generating multiset that meets the partition constraints (completeness) *)
+Theorem mgs_returns_minimum_parts (I : mgs_inst) (status : nat -> mstatus) :
+  (1 <= mg_mult I)%nat ->
+  (forall k, status k = MgOptimal -> exists a, sat a (encode_mgs I k)) ->
+  (forall k, status k = MgInfeasible -> forall a, ~ sat a (encode_mgs I k)) ->
+  forall lb n extra tried k, mgsm_loop status lb n extra = (tried, Some k) ->
+  (exists g, length g = k /\ genset (mg_mult I) (mg_numbers I) (mg_total I) g /\ (mg_int I = true -> Forall is_int g)) /\ (lb <= k)%nat /\
+  forall k' g, (lb <= k' < k)%nat -> length g = k' -> ~ genset_for I g.
+Proof.
+  intros Hm Hopt Hinf lb n extra tried k H.
+  destruct (mgsm_loop_sound (fun k => exists a, sat a (encode_mgs I k)) status Hopt
+              (fun k Hk Hex => let '(ex_intro _ a Ha) := Hex in Hinf k Hk a Ha) lb n extra tried k H) as ((a & Hs) & _ & Hlb & Hmin).
+  split; [|split; [exact Hlb|]].
+  - destruct (mgs_sound_multiset I k a Hm Hs) as (Hl & Hg & Hi). eexists. split; [exact Hl|]. split; assumption.
+  - intros k' g Hk' Hl Hg. apply (Hmin k' Hk'). eapply mgs_enc_complete; eassumption.
+Qed.
+
 (* non-vacuity: the instance on which the OLD encoder had no solution (numbers 1/2, 1/4, total 1, multiplicity 2,
    generating multiset {3/4, 1/4} given unsorted) is admitted by the encoder as it is *)
 Definition ex_complete_inst : mgs_inst := {| mg_numbers := [1 # 2; 1 # 4]; mg_total := 1; mg_int := false; mg_mult := 2; mg_parts := None |}.
 Lemma ex_complete_genset : genset_for ex_complete_inst [3 # 4; 1 # 4].
 Proof.
-  split; [|discriminate]. cbn [mg_mult mg_numbers mg_total ex_complete_inst]. split; [repeat constructor; lra|]. split; [vm_compute; reflexivity|].
+  split; [|split; [discriminate|constructor]]. cbn [mg_mult mg_numbers mg_total ex_complete_inst]. split; [repeat constructor; lra|]. split; [vm_compute; reflexivity|].
   intros a [<-|[<-|[]]].
   - exists [0; 2]%Z. split; [reflexivity|]. split; [repeat (apply Forall_cons; [cbn; lia|]); apply Forall_nil|]. vm_compute; reflexivity.
   - exists [0; 1]%Z. split; [reflexivity|]. split; [repeat (apply Forall_cons; [cbn; lia|]); apply Forall_nil|]. vm_compute; reflexivity.
 Qed.
 Lemma ex_complete_sat : exists a, sat a (encode_mgs ex_complete_inst 2).
-Proof. apply (mgs_enc_complete ex_complete_inst 2 [3 # 4; 1 # 4]); [reflexivity|cbn; lia|reflexivity|exact ex_complete_genset]. Qed.
+Proof. apply (mgs_enc_complete ex_complete_inst 2 [3 # 4; 1 # 4]); [cbn; lia|reflexivity|exact ex_complete_genset]. Qed.
+
+(* non-vacuity with partition constraints: numbers [1,1], total 6, constraints [2,2,2] and [6], multiset {2,1,2,1} (unsorted) *)
+Definition ex_parts_inst : mgs_inst := {| mg_numbers := [1; 1]; mg_total := 6; mg_int := true; mg_mult := 1; mg_parts := Some [[2; 2; 2]; [6]] |}.
+Lemma ex_parts_genset : genset_for ex_parts_inst [2; 1; 2; 1].
+Proof.
+  split; [|split].
+  - cbn [mg_mult mg_numbers mg_total ex_parts_inst]. split; [repeat constructor; lra|]. split; [vm_compute; reflexivity|].
+    intros a [<-|[<-|[]]]; exists [0; 1; 0; 0]%Z; (split; [reflexivity|]); (split; [repeat (apply Forall_cons; [cbn; lia|]); apply Forall_nil|]); vm_compute; reflexivity.
+  - intros _. repeat constructor; [exists 2%Z|exists 1%Z|exists 2%Z|exists 1%Z]; reflexivity.
+  - cbn [parts_of mg_parts ex_parts_inst]. constructor; [|constructor; [|constructor]].
+    + exists [0; 2; 1; 2]%nat. split; [reflexivity|]. split; [repeat constructor|].
+      intros j v H. do 3 (destruct j as [|j]; [cbn in H; injection H as <-; vm_compute; reflexivity|]). destruct j; discriminate.
+    + exists [0; 0; 0; 0]%nat. split; [reflexivity|]. split; [repeat constructor|].
+      intros [|j] v H; cbn in H; [injection H as <-; vm_compute; reflexivity|destruct j; discriminate].
+Qed.
+Lemma ex_parts_sat : exists a, sat a (encode_mgs ex_parts_inst 4).
+Proof. apply (mgs_enc_complete ex_parts_inst 4 [2; 1; 2; 1]); [cbn; lia|reflexivity|exact ex_parts_genset]. Qed.
